@@ -91,6 +91,15 @@ def install(E):
             return PENDING
         n = E.fresh('n', 64)
         E.assume(z3.UGE(n, 1), z3.ULE(n, remaining))
+        if E.nread == getattr(E, 'max_reads', 4) and getattr(E, 'last_read_takes_all', True):
+            # the last read inside the bound delivers everything that is left (if it fits): deliveries in fewer, larger
+            # reads are covered by the earlier reads being arbitrary; deliveries needing more reads are outside the bound
+            cap0 = buf.cap
+            if cap0 is not None:
+                sp = cap0 - blen(E, buf)
+                E.assume(z3.Or(n == remaining, z3.And(sp != 0, n == sp)))
+            else:
+                E.assume(n == remaining)
         cap = buf.cap
         ln = blen(E, buf)
         if cap is not None:
